@@ -53,7 +53,8 @@ def generate(rng, cfg: Dict) -> Dict:
         else:
             src = ["graph"]
         consume = c.weighted([("drain", 5), ("take", 2), ("build_only", 1)])
-        body.append(["query", q, cls, src, c.chance(0.4), consume, c.int(0, 2), c.chance(0.6)])
+        cond = c.weighted([(False, 4), (True, 3), ("IsListed", 1.5), ("IsAudited", 1.5)])
+        body.append(["query", q, cls, src, cond, consume, c.int(0, 2), c.chance(0.6)])
     if c.chance(0.3):
         body.insert(c.int(0, len(body)), [c.pick(["gc", "sweep"])])
     if c.chance(0.2):
@@ -175,7 +176,11 @@ def _do_query(world, op, cycle, program_refs, log, counters) -> bool:
         domain = members if src[0] == "list" else (m for m in members)
         explicit = True
     var = let(cls, domain)
-    query = an(entity(var, var.serial >= 0)) if with_cond else an(entity(var))
+    if with_cond in oworld.PREDICATES:
+        query = an(entity(var, oworld.PREDICATES[with_cond](x=var)))
+        counters.inc("op.query.predicate")
+    else:
+        query = an(entity(var, var.serial >= 0)) if with_cond else an(entity(var))
     counters.inc("op.query." + ("graph" if domain is None else src[0]))
     res, it = [], None
     try:
